@@ -2,6 +2,7 @@
   Driver.Proto — request parsing / reply printing for bbdrv.
 -/
 import BB.Model
+import Driver.ExecProto
 open BB BB.Spec
 
 namespace Driver
@@ -114,6 +115,10 @@ def handle (line : String) : String :=
     match w.toNat? with
     | some w => match decode32 w with | some i => showI32 i | none => "none"
     | none => "bad-args"
+  | ["dec16x", h] =>
+    match h.toNat? with
+    | some h => match decode16 h with | some c => showI32 (expand16 c) | none => "none"
+    | none => "bad-args"
   | ["dec16", h] =>
     match h.toNat? with
     | some h =>
@@ -138,7 +143,10 @@ def handle (line : String) : String :=
     | some n => s!"{n}"
     | none => "none"
   | ["ping"] => "pong"
-  | _ => "bad-request"
+  | _ =>
+    match handleExec toks with
+    | some r => r
+    | none => "bad-request"
 
 partial def loop (i o : IO.FS.Stream) : IO Unit := do
   let line ← i.getLine
